@@ -993,6 +993,16 @@ func (e *Engine) smtText(o *Oblig, extra string, splitCase string) string {
 		decl := "(declare-const str!zeros (Array Int Str))\n(assert (forall ((i Int)) (! (= (select str!zeros i) str!empty) :pattern ((select str!zeros i)))))\n"
 		text = strings.Replace(text, "(declare-fun str!cat", decl+"(declare-fun str!cat", 1)
 	}
+	// the same for constant arrays of interface values
+	for _, idx := range []string{"Int", "Str"} {
+		cad := "((as const (Array " + idx + " Dyn)) dyn!nil)"
+		if strings.Contains(text, cad) {
+			name := "dyn!zeros." + idx
+			text = strings.ReplaceAll(text, cad, name)
+			decl := "(declare-const " + name + " (Array " + idx + " Dyn))\n(assert (forall ((i " + idx + ")) (! (= (select " + name + " i) dyn!nil) :pattern ((select " + name + " i)))))\n"
+			text = strings.Replace(text, "(declare-fun dyn!ty (Dyn) Int)", decl+"(declare-fun dyn!ty (Dyn) Int)", 1)
+		}
+	}
 	return text
 }
 
